@@ -11,6 +11,12 @@
 #include <unordered_set>
 #include <vector>
 
+#ifdef OPENSMT_VERIF
+#include <common/VerifTrace.h>
+
+#include <string>
+#endif
+
 namespace opensmt {
 
 using Partitions = ipartitions_t;
@@ -115,6 +121,9 @@ void UnsatCoreBuilder::minimize() {
     assert(config.minimal_unsat_cores());
 
     if (config.print_cores_full()) {
+#ifdef OPENSMT_VERIF
+        if (veriftrace::on()) { veriftrace::line("(min-mode full)"); }
+#endif
         allTerms = Minimize{*this, std::move(allTerms)}.perform();
         return;
     }
@@ -125,6 +134,16 @@ void UnsatCoreBuilder::minimize() {
     // TODO: make more efficient
     auto const & termNames = solver.getTermNames();
     assert(hiddenTerms.size() == 0);
+#ifdef OPENSMT_VERIF
+    if (veriftrace::on()) {
+        std::string current = "(", contains = "(";
+        for (PTRef term : solver.getCurrentAssertionsView()) {
+            current += std::to_string(term.x) + " ";
+            contains += termNames.contains(term) ? "1 " : "0 ";
+        }
+        veriftrace::line("(min-mode named (current " + current + ")) (contains " + contains + ")))");
+    }
+#endif
     for (PTRef term : solver.getCurrentAssertionsView()) {
         if (termNames.contains(term)) { continue; }
         hiddenTerms.push(term);
@@ -175,6 +194,27 @@ vec<PTRef> UnsatCoreBuilder::Minimize::perform() && {
 }
 
 vec<PTRef> UnsatCoreBuilder::Minimize::performNaive(InternalSMTSolver & smtSolver) {
+#ifdef OPENSMT_VERIF
+    // verification trace: the minimisation problem, every inner check with the inner solver's assertions, the result
+    auto const verifList = [](auto const & terms) {
+        std::string s = "(";
+        for (PTRef t : terms) {
+            s += std::to_string(t.x);
+            s += ' ';
+        }
+        s += ')';
+        return s;
+    };
+    if (veriftrace::on()) {
+        for (PTRef t : backgroundTerms) {
+            veriftrace::line("(min-term " + std::to_string(t.x) + " " + builder.logic.termToSMT2String(t) + ")");
+        }
+        for (PTRef t : targetTerms) {
+            veriftrace::line("(min-term " + std::to_string(t.x) + " " + builder.logic.termToSMT2String(t) + ")");
+        }
+        veriftrace::line("(min-begin (bg " + verifList(backgroundTerms) + ") (targets " + verifList(targetTerms) + "))");
+    }
+#endif
     for (PTRef term : backgroundTerms) {
         // the term that we do not care about eliminating -> can be hard-asserted
         smtSolver.insertFormula(term);
@@ -197,6 +237,12 @@ vec<PTRef> UnsatCoreBuilder::Minimize::performNaive(InternalSMTSolver & smtSolve
         sstat const res = smtSolver.check();
         assert(res == s_True || res == s_False);
         bool const isRedundant = (res == s_False);
+#ifdef OPENSMT_VERIF
+        if (veriftrace::on()) {
+            veriftrace::line("(min-check " + std::to_string(idx) + " " + verifList(smtSolver.getCurrentAssertionsView()) +
+                             (res == s_False ? " unsat)" : res == s_True ? " sat)" : " unknown)"));
+        }
+#endif
 
         smtSolver.pop();
 
@@ -209,6 +255,9 @@ vec<PTRef> UnsatCoreBuilder::Minimize::performNaive(InternalSMTSolver & smtSolve
         newTargetTerms.push(term);
     }
 
+#ifdef OPENSMT_VERIF
+    if (veriftrace::on()) { veriftrace::line("(min-end " + verifList(newTargetTerms) + ")"); }
+#endif
     return newTargetTerms;
 }
 
